@@ -169,6 +169,7 @@ def run(ctx):
     pool += stories.generated_pool(ctx, "observers", 6 if quick else 150, size=2)
     pool += stories.generated_pool(ctx, "externals", 6 if quick else 150, size=2)
     pool += stories.generated_pool(ctx, "errors", 4 if quick else 100, size=2)
+    pool += stories.probe_pool(ctx, "c08")
     jobs = []
     for si, s in enumerate(pool):
         cseed = ctx.seed * 811 + si
